@@ -1,4 +1,80 @@
-(** Wire entry points of property C15 (stub: replaced when the model is built). *)
-From Coq Require Import ZArith List.
-From PLV Require Import Base.Wire.
-Definition entry (sub : Z) (inp : list Z) : list Z := bad_input.
+(** Wire entry points of property C15.
+
+    input : node cwd dir strict names
+      node  := 0 k (name node)^k | 1 content | 2 target       (strings length-prefixed)
+      cwd   := list of component strings (real path of the process' cwd)
+      dir   := option string (None: set_tex_input_directory never called)
+      names := list of requested names
+    output: [D=<realpath dir> <ret>;<realpath(join(dir,name))> ...]
+      <ret> is the returned string, or [L] when the model ran out of fuel.
+    sub 0: the code with the C15 fix; sub 1: the code before the fix. *)
+From Coq Require Import NArith ZArith List Bool.
+From PLV Require Import Base.PyStr Base.Wire FS.FsModel FS.InputFile.
+Import ListNotations.
+
+Fixpoint rd_node (fuel : nat) : rd node :=
+  fun l =>
+  match fuel with
+  | O => None
+  | S f =>
+    match l with
+    | z :: r =>
+        if Z.eqb z 0 then
+          match rd_list (fun l1 => match rd_str l1 with
+                                   | Some (nm, l2) =>
+                                       match rd_node f l2 with
+                                       | Some (x, l3) => Some ((nm, x), l3)
+                                       | None => None end
+                                   | None => None end) r with
+          | Some (es, r') => Some (Dir es, r')
+          | None => None
+          end
+        else if Z.eqb z 1 then
+          match rd_str r with Some (c, r') => Some (File c, r') | None => None end
+        else
+          match rd_str r with Some (t, r') => Some (Symlink t, r') | None => None end
+    | [] => None
+    end
+  end%Z.
+
+Definition show_rres (r : rres) : str :=
+  match r with Ret s => show_str s | Loop => [76%N] end.
+
+Definition entry_fuel (inp : list Z) : nat := 200 + 8 * length inp.
+
+Definition run_names (orig : bool) (fuel : nat) (root : node) (cwd : path)
+           (dir : option str) (strict : bool) (names : list str) : str :=
+  let rd1 := fun fn =>
+    match dir with
+    | None => Ret []
+    | Some d => if orig then read_latex_file_orig fuel root cwd d strict fn
+                else read_latex_file fuel root cwd d strict fn
+    end in
+  let probe := fun fn =>
+    match dir with
+    | None => None
+    | Some d => realpath fuel root cwd (os_path_join d fn)
+    end in
+  let dreal := match dir with None => None | Some d => realpath fuel root cwd d end in
+  join [32%N]
+       (([68; 61]%N ++ show_opt show_str dreal)
+          :: map (fun fn => show_rres (rd1 fn) ++ 59%N :: show_opt show_str (probe fn)) names).
+
+Definition entry (sub : Z) (inp : list Z) : list Z :=
+  match rd_node (length inp) inp with
+  | Some (root, r1) =>
+    match rd_list rd_str r1 with
+    | Some (cwd, r2) =>
+      match rd_opt rd_str r2 with
+      | Some (dir, r3) =>
+        match rd_bool r3 with
+        | Some (strict, r4) =>
+          match rd_list rd_str r4 with
+          | Some (names, _) =>
+              to_wire (run_names (Z.eqb sub 1) (entry_fuel inp) root cwd dir strict names)
+          | None => bad_input end
+        | None => bad_input end
+      | None => bad_input end
+    | None => bad_input end
+  | None => bad_input
+  end.
